@@ -434,6 +434,9 @@ func CallDepth(d int) {
 	}
 }
 
+// Child reports whether the task is a goroutine the library started (not a caller task).
+func (t *Task) Child() bool { return t.parent >= 0 }
+
 // CurTask returns the running task (nil outside the scheduler).
 func CurTask() *Task {
 	if s := sched; s != nil {
